@@ -1,7 +1,1144 @@
-//! C03 — not built yet.
+//! C03 — first committer wins (and the shared transaction-manager model / generators used by C04).
+//!
+//! Target: `grafeo_engine::transaction::TransactionManager` (begin / record_write / record_read /
+//! commit / abort / gc) and the session layer above it.
+//!
+//! Oracle (`Model`): an *order-based* reference that never looks at epochs. A transaction T overlaps a
+//! committed transaction T' iff T' committed (position in the history) after T began. commit(T) must be
+//! refused with `WriteConflict` iff some overlapping committed T' has write_set(T') ∩ write_set(T) ≠ ∅;
+//! a Serializable T with a non-empty write set must additionally be refused with `SerializationFailure`
+//! iff some overlapping committed T' wrote an entity T read (C04). Everything else must be accepted.
+//! A refused commit leaves the transaction Active (the property does not say which terminal state a
+//! refused commit takes; the model follows the implementation, DESIGN §4 C03 E).
+//! Separately checked: epochs agree with the order (start epoch >= every earlier commit epoch, commit
+//! epoch > every earlier start and commit epoch), states never leave Committed/Aborted, gc never
+//! removes an Active transaction and never changes any outcome (each history is run three times: as
+//! generated, with the gc ops stripped, with a gc after every op).
 
-use crate::driver::Run;
+use std::sync::{Arc, Barrier};
+
+use proptest::prelude::*;
+use serde::{Deserialize, Serialize};
+
+use grafeo_common::types::{EdgeId, NodeId, TxId};
+use grafeo_common::utils::error::{Error, TransactionError};
+use grafeo_engine::transaction::{EntityId, IsolationLevel, TransactionManager, TxState};
+
+use crate::driver::{CaseResult, Failure, Run, fail, guard, hash_of, ok, pick};
+
+pub const MAX_TX: usize = 6;
+pub const N_ENT: u8 = 4;
+
+// ------------------------------------------------------------------------------------------------
+// Cases
+// ------------------------------------------------------------------------------------------------
+
+/// How the `tx` field of a generated op selects a transaction.
+#[derive(Debug, Clone, Copy, PartialEq, Eq, Hash, Serialize, Deserialize)]
+pub enum Sel {
+    /// `pick(tx, #active)` among the transactions the model holds Active (ascending begin order)
+    Active,
+    /// `pick(tx, #begun)` among all begun transactions (reaches finished / collected ones)
+    Any,
+}
+
+/// A generated history step. Levels: 0 ReadCommitted, 1 SnapshotIsolation, 2 Serializable.
+#[derive(Debug, Clone, Copy, PartialEq, Eq, Hash, Serialize, Deserialize)]
+pub enum Op {
+    Begin { level: u8 },
+    Write { tx: u16, sel: Sel, e: u8 },
+    Read { tx: u16, sel: Sel, e: u8 },
+    Commit { tx: u16, sel: Sel },
+    Abort { tx: u16, sel: Sel },
+    Gc,
+}
+
+/// A resolved step: `t` is the index of the transaction in begin order.
+#[derive(Debug, Clone, Copy, PartialEq, Eq, Hash)]
+pub enum ROp {
+    Begin(u8),
+    Write(u8, u8),
+    Read(u8, u8),
+    Commit(u8),
+    Abort(u8),
+    Gc,
+}
+
+pub fn level_name(l: u8) -> &'static str {
+    match l {
+        0 => "rc",
+        1 => "si",
+        _ => "ser",
+    }
+}
+
+fn level_of(l: u8) -> IsolationLevel {
+    match l {
+        0 => IsolationLevel::ReadCommitted,
+        1 => IsolationLevel::SnapshotIsolation,
+        _ => IsolationLevel::Serializable,
+    }
+}
+
+/// Entities: Node(1), Edge(1), Node(2), Edge(2), … (same numeric id, different kind must not collide).
+pub fn entity(e: u8) -> EntityId {
+    let id = u64::from(e / 2) + 1;
+    if e % 2 == 0 { EntityId::Node(NodeId::new(id)) } else { EntityId::Edge(EdgeId::new(id)) }
+}
+
+/// Compact rendering: `b0:si w0:1 r1:0 c0 a1 gc`.
+pub fn render(ops: &[ROp]) -> String {
+    let mut n = 0;
+    let mut out = Vec::new();
+    for op in ops {
+        out.push(match op {
+            ROp::Begin(l) => {
+                n += 1;
+                format!("b{}:{}", n - 1, level_name(*l))
+            }
+            ROp::Write(t, e) => format!("w{t}:{e}"),
+            ROp::Read(t, e) => format!("r{t}:{e}"),
+            ROp::Commit(t) => format!("c{t}"),
+            ROp::Abort(t) => format!("a{t}"),
+            ROp::Gc => "gc".to_string(),
+        });
+    }
+    out.join(" ")
+}
+
+// ------------------------------------------------------------------------------------------------
+// Reference model
+// ------------------------------------------------------------------------------------------------
+
+#[derive(Debug, Clone, Copy, PartialEq, Eq)]
+pub enum MState {
+    Active,
+    Committed,
+    Aborted,
+}
+
+#[derive(Debug, Clone)]
+pub struct MTx {
+    pub level: u8,
+    pub begin_pos: usize,
+    pub ws: u16,
+    pub rs: u16,
+    pub state: MState,
+    pub commit_pos: Option<usize>,
+    /// commit was attempted at least once while Active
+    pub attempted: bool,
+    /// last commit attempt was refused by the model
+    pub refused: bool,
+}
+
+#[derive(Debug, Clone, Copy, PartialEq, Eq, Default)]
+pub struct Decision {
+    /// an overlapping committed transaction wrote an entity we wrote
+    pub ww: bool,
+    /// Serializable, non-empty write set, an overlapping committed transaction wrote an entity we read
+    pub rw: bool,
+    /// a transaction that committed *before we began* wrote an entity we wrote (must not matter)
+    pub ww_earlier: bool,
+    /// a transaction that committed before we began wrote an entity we read (must not matter)
+    pub rw_earlier: bool,
+    /// an overlapping committed transaction wrote an entity we read (whatever our level / write set)
+    pub stale_read: bool,
+}
+
+impl Decision {
+    pub fn accept(&self) -> bool {
+        !self.ww && !self.rw
+    }
+}
+
+/// What the model expects of one step.
+#[derive(Debug, Clone, Copy, PartialEq, Eq)]
+pub enum Exp {
+    Began,
+    Unit,
+    Invalid,
+    Commit(Decision),
+    Gc,
+}
+
+#[derive(Debug, Clone, Default)]
+pub struct Model {
+    pub txs: Vec<MTx>,
+    pub pos: usize,
+}
+
+impl Model {
+    pub fn active(&self) -> Vec<u8> {
+        self.txs.iter().enumerate().filter(|(_, t)| t.state == MState::Active).map(|(i, _)| i as u8).collect()
+    }
+
+    pub fn decide(&self, t: usize) -> Decision {
+        let me = &self.txs[t];
+        let mut d = Decision::default();
+        for (i, o) in self.txs.iter().enumerate() {
+            if i == t || o.state != MState::Committed {
+                continue;
+            }
+            let overlapping = o.commit_pos.unwrap() > me.begin_pos;
+            let w = o.ws & me.ws != 0;
+            let r = o.ws & me.rs != 0;
+            if overlapping {
+                d.ww |= w;
+                d.stale_read |= r;
+                d.rw |= r && me.level == 2 && me.ws != 0;
+            } else {
+                d.ww_earlier |= w;
+                d.rw_earlier |= r;
+            }
+        }
+        d
+    }
+
+    pub fn step(&mut self, op: ROp) -> Exp {
+        let pos = self.pos;
+        self.pos += 1;
+        let active = |m: &Model, t: u8| m.txs.get(t as usize).is_some_and(|x| x.state == MState::Active);
+        match op {
+            ROp::Begin(level) => {
+                self.txs.push(MTx {
+                    level,
+                    begin_pos: pos,
+                    ws: 0,
+                    rs: 0,
+                    state: MState::Active,
+                    commit_pos: None,
+                    attempted: false,
+                    refused: false,
+                });
+                Exp::Began
+            }
+            ROp::Write(t, e) => {
+                if !active(self, t) {
+                    return Exp::Invalid;
+                }
+                self.txs[t as usize].ws |= 1 << e;
+                Exp::Unit
+            }
+            ROp::Read(t, e) => {
+                if !active(self, t) {
+                    return Exp::Invalid;
+                }
+                self.txs[t as usize].rs |= 1 << e;
+                Exp::Unit
+            }
+            ROp::Commit(t) => {
+                if !active(self, t) {
+                    return Exp::Invalid;
+                }
+                let d = self.decide(t as usize);
+                let tx = &mut self.txs[t as usize];
+                tx.attempted = true;
+                if d.accept() {
+                    tx.state = MState::Committed;
+                    tx.commit_pos = Some(pos);
+                    tx.refused = false;
+                } else {
+                    tx.refused = true;
+                }
+                Exp::Commit(d)
+            }
+            ROp::Abort(t) => {
+                if !active(self, t) {
+                    return Exp::Invalid;
+                }
+                self.txs[t as usize].state = MState::Aborted;
+                Exp::Unit
+            }
+            ROp::Gc => Exp::Gc,
+        }
+    }
+}
+
+/// Resolves generated ops into concrete ones (needs the model to know which transactions are Active).
+pub fn resolve(ops: &[Op], max_tx: usize) -> Vec<ROp> {
+    let mut m = Model::default();
+    let mut out = Vec::with_capacity(ops.len());
+    for op in ops {
+        let target = |m: &Model, tx: u16, sel: Sel| -> Option<u8> {
+            match sel {
+                Sel::Active => {
+                    let a = m.active();
+                    if a.is_empty() { None } else { Some(a[pick(tx, a.len())]) }
+                }
+                Sel::Any => {
+                    if m.txs.is_empty() { None } else { Some(pick(tx, m.txs.len()) as u8) }
+                }
+            }
+        };
+        let r = match *op {
+            Op::Begin { level } => {
+                if m.txs.len() >= max_tx {
+                    continue;
+                }
+                ROp::Begin(level.min(2))
+            }
+            Op::Write { tx, sel, e } => match target(&m, tx, sel) {
+                Some(t) => ROp::Write(t, e % 8),
+                None => continue,
+            },
+            Op::Read { tx, sel, e } => match target(&m, tx, sel) {
+                Some(t) => ROp::Read(t, e % 8),
+                None => continue,
+            },
+            Op::Commit { tx, sel } => match target(&m, tx, sel) {
+                Some(t) => ROp::Commit(t),
+                None => continue,
+            },
+            Op::Abort { tx, sel } => match target(&m, tx, sel) {
+                Some(t) => ROp::Abort(t),
+                None => continue,
+            },
+            Op::Gc => ROp::Gc,
+        };
+        m.step(r);
+        out.push(r);
+    }
+    out
+}
+
+// ------------------------------------------------------------------------------------------------
+// Running a history against the real TransactionManager
+// ------------------------------------------------------------------------------------------------
+
+#[derive(Debug, Clone, Copy, PartialEq, Eq)]
+pub enum EK {
+    WriteConflict,
+    Serialization,
+    InvalidState,
+    Other,
+}
+
+fn kind(e: &Error) -> EK {
+    match e {
+        Error::Transaction(TransactionError::WriteConflict(_)) => EK::WriteConflict,
+        Error::Transaction(TransactionError::SerializationFailure(_)) => EK::Serialization,
+        Error::Transaction(TransactionError::InvalidState(_)) => EK::InvalidState,
+        _ => EK::Other,
+    }
+}
+
+#[derive(Debug, Clone, Copy, PartialEq, Eq)]
+pub enum Out {
+    Began { start: Option<u64>, current: u64 },
+    Unit,
+    Epoch(u64),
+    Err(EK),
+    Gc,
+}
+
+#[derive(Debug, Clone)]
+pub struct Step {
+    pub out: Out,
+    /// `state(tx)` of every begun transaction after the step: 0 unknown to the manager, 1 Active, 2 Committed, 3 Aborted
+    pub states: Vec<u8>,
+    /// at least one gc call has happened so far
+    pub gc_seen: bool,
+}
+
+#[derive(Debug, Clone, Copy, PartialEq, Eq)]
+pub enum GcMode {
+    AsIs,
+    Strip,
+    Everywhere,
+}
+
+fn state_code(s: Option<TxState>) -> u8 {
+    match s {
+        None => 0,
+        Some(TxState::Active) => 1,
+        Some(TxState::Committed) => 2,
+        Some(TxState::Aborted) => 3,
+    }
+}
+
+/// Executes the history. Returns one `Step` per op of `ops` (a stripped gc yields `Out::Gc` without a call).
+pub fn run_real(ops: &[ROp], mode: GcMode) -> Result<Vec<Step>, Failure> {
+    guard("TransactionManager history", || {
+        let mgr = TransactionManager::new();
+        let mut ids: Vec<TxId> = Vec::new();
+        let mut steps = Vec::with_capacity(ops.len());
+        let mut gc_seen = false;
+        for op in ops {
+            let out = match *op {
+                ROp::Begin(l) => {
+                    let current = mgr.current_epoch().as_u64();
+                    let id = mgr.begin_with_isolation(level_of(l));
+                    ids.push(id);
+                    Out::Began { start: mgr.start_epoch(id).map(|e| e.as_u64()), current }
+                }
+                ROp::Write(t, e) => match mgr.record_write(ids[t as usize], entity(e)) {
+                    Ok(()) => Out::Unit,
+                    Err(er) => Out::Err(kind(&er)),
+                },
+                ROp::Read(t, e) => match mgr.record_read(ids[t as usize], entity(e)) {
+                    Ok(()) => Out::Unit,
+                    Err(er) => Out::Err(kind(&er)),
+                },
+                ROp::Commit(t) => match mgr.commit(ids[t as usize]) {
+                    Ok(ep) => Out::Epoch(ep.as_u64()),
+                    Err(er) => Out::Err(kind(&er)),
+                },
+                ROp::Abort(t) => match mgr.abort(ids[t as usize]) {
+                    Ok(()) => Out::Unit,
+                    Err(er) => Out::Err(kind(&er)),
+                },
+                ROp::Gc => {
+                    if mode != GcMode::Strip {
+                        mgr.gc();
+                        gc_seen = true;
+                    }
+                    Out::Gc
+                }
+            };
+            if mode == GcMode::Everywhere && *op != ROp::Gc {
+                mgr.gc();
+                gc_seen = true;
+            }
+            let states = ids.iter().map(|id| state_code(mgr.state(*id))).collect();
+            steps.push(Step { out, states, gc_seen });
+        }
+        steps
+    })
+}
+
+/// Facts about a history used for classes / non-triviality.
+#[derive(Debug, Clone, Default)]
+pub struct Summary {
+    pub n_tx: usize,
+    pub ww_pair_both_attempted: bool,
+    pub ww_refusals: u32,
+    pub rw_refusals: u32,
+    pub accepted_commits: u32,
+    /// a gc lies between a successful commit and a later begin or commit attempt
+    pub gc_between: bool,
+    /// T read e, an overlapping T' wrote e and committed, T reached commit (accepted or refused)
+    pub rw_antidep: bool,
+    /// a transaction that began after an earlier writer of the same entity committed reached commit
+    pub sequential_same_entity: bool,
+    pub ops_on_finished: u32,
+    pub all_serializable: bool,
+    pub readonly_stale_accept: bool,
+    /// known divergence met (read-only Serializable transaction refused for a stale read); the model
+    /// followed the implementation from there and the history is reported under that signature at the end
+    pub ro_refused: Option<String>,
+}
+
+/// Compares the real execution (as generated) against the model. `prop` is "c03" or "c04" and only
+/// chooses the prefix of generic signatures.
+pub fn compare_with_model(ops: &[ROp], real: &[Step]) -> Result<Summary, Failure> {
+    let h = || render(ops);
+    let mut m = Model::default();
+    let mut sum = Summary { all_serializable: true, ..Summary::default() };
+    let mut last_ce: u64 = 0; // highest commit epoch so far
+    let mut max_start: u64 = 0;
+    let mut starts: Vec<u64> = Vec::new();
+    let mut commit_seen = false;
+    let mut gc_after_commit = false;
+    // terminal transactions may disappear only after a gc; once gone they stay gone
+    let mut gone: Vec<bool> = Vec::new();
+
+    for (i, (op, st)) in ops.iter().zip(real).enumerate() {
+        let before = m.clone();
+        let exp = m.step(*op);
+        match (exp, st.out) {
+            (Exp::Began, Out::Began { start, current }) => {
+                let Some(s) = start else {
+                    return fail("c03/start-epoch-missing", format!("{}: step {i}: start_epoch(tx) is None right after begin", h()));
+                };
+                if s < last_ce || s != current {
+                    return fail(
+                        "c03/epoch-order",
+                        format!("{}: step {i}: start epoch {s}, current epoch {current}, highest earlier commit epoch {last_ce}", h()),
+                    );
+                }
+                max_start = max_start.max(s);
+                starts.push(s);
+                gone.push(false);
+                if let ROp::Begin(l) = op {
+                    sum.all_serializable &= *l == 2;
+                }
+                if gc_after_commit {
+                    sum.gc_between = true;
+                }
+            }
+            (Exp::Unit, Out::Unit) => {}
+            (Exp::Gc, Out::Gc) => {
+                if commit_seen {
+                    gc_after_commit = true;
+                }
+            }
+            (Exp::Invalid, Out::Err(EK::InvalidState)) => sum.ops_on_finished += 1,
+            (Exp::Invalid, got) => {
+                return fail(
+                    "c03/op-on-finished-transaction",
+                    format!("{}: step {i} ({op:?}) targets a finished transaction, expected InvalidState, got {got:?}", h()),
+                );
+            }
+            (Exp::Commit(d), got) => {
+                let ROp::Commit(t) = *op else { unreachable!() };
+                let me = &before.txs[t as usize];
+                if gc_after_commit {
+                    sum.gc_between = true;
+                }
+                if d.ww_earlier {
+                    sum.sequential_same_entity = true;
+                }
+                if d.stale_read {
+                    sum.rw_antidep = true;
+                }
+                let detail = |what: &str| {
+                    format!(
+                        "{}: step {i} commit of t{t} ({}; ws={:#b} rs={:#b}) {what}; model {d:?}, implementation {got:?}",
+                        h(),
+                        level_name(me.level),
+                        me.ws,
+                        me.rs
+                    )
+                };
+                match got {
+                    Out::Epoch(ep) => {
+                        if d.ww {
+                            return fail("c03/conflicting-writer-committed", detail("must be refused (WriteConflict) but committed"));
+                        }
+                        if d.rw {
+                            return fail("c04/stale-read-writer-committed", detail("must be refused (SerializationFailure) but committed"));
+                        }
+                        if ep <= last_ce || ep <= max_start {
+                            return fail(
+                                "c03/epoch-order",
+                                detail(&format!("commit epoch {ep} not above earlier commit epoch {last_ce} / start epoch {max_start}")),
+                            );
+                        }
+                        last_ce = ep;
+                        commit_seen = true;
+                        gc_after_commit = false;
+                        sum.accepted_commits += 1;
+                        if d.stale_read && me.ws == 0 && me.level == 2 {
+                            sum.readonly_stale_accept = true;
+                        }
+                    }
+                    Out::Err(EK::WriteConflict) => {
+                        if !d.ww {
+                            if d.ww_earlier {
+                                return fail(
+                                    "c03/refused-by-writer-committed-before-begin",
+                                    detail("refused with WriteConflict although every writer of its entities committed before it began"),
+                                );
+                            }
+                            return fail("c03/refused-without-conflict", detail("refused with WriteConflict without any conflicting committed writer"));
+                        }
+                        sum.ww_refusals += 1;
+                    }
+                    Out::Err(EK::Serialization) => {
+                        if !d.rw {
+                            if d.ww {
+                                return fail("c03/wrong-error-kind", detail("write-write conflict reported as SerializationFailure"));
+                            }
+                            if me.level == 2 && me.ws == 0 && d.stale_read {
+                                // classified divergence: keep checking the rest of the history with the model
+                                // following the implementation (the transaction stays Active)
+                                if sum.ro_refused.is_none() {
+                                    sum.ro_refused = Some(detail("read-only Serializable transaction refused for a stale read"));
+                                }
+                                let tx = &mut m.txs[t as usize];
+                                tx.state = MState::Active;
+                                tx.commit_pos = None;
+                                tx.refused = true;
+                            } else if me.level != 2 {
+                                return fail("c04/non-serializable-refused-for-read", detail("non-Serializable transaction refused for a read"));
+                            } else if d.rw_earlier && !d.stale_read {
+                                return fail(
+                                    "c04/refused-by-writer-committed-before-begin",
+                                    detail("refused with SerializationFailure although every writer of what it read committed before it began"),
+                                );
+                            } else {
+                                return fail("c04/refused-without-conflict", detail("refused with SerializationFailure without a stale read"));
+                            }
+                        } else {
+                            sum.rw_refusals += 1;
+                        }
+                    }
+                    other => {
+                        return fail("c03/commit-unexpected-result", detail(&format!("unexpected result {other:?}")));
+                    }
+                }
+            }
+            (e, got) => {
+                return fail("c03/op-result", format!("{}: step {i} ({op:?}): model expects {e:?}, implementation {got:?}", h()));
+            }
+        }
+
+        // states: Active stays Active; terminal states are kept or (after a gc) forgotten, never changed
+        for (t, mt) in m.txs.iter().enumerate() {
+            let code = st.states[t];
+            let want = match mt.state {
+                MState::Active => 1,
+                MState::Committed => 2,
+                MState::Aborted => 3,
+            };
+            let okay = if code == want {
+                !gone[t]
+            } else {
+                code == 0 && want != 1 && st.gc_seen
+            };
+            if !okay {
+                return fail(
+                    "c03/state",
+                    format!(
+                        "{}: after step {i}: state(t{t}) code {code} (0 none,1 active,2 committed,3 aborted), model {:?}, previously collected: {}",
+                        h(),
+                        mt.state,
+                        gone[t]
+                    ),
+                );
+            }
+            if code == 0 {
+                gone[t] = true;
+            }
+        }
+    }
+
+    sum.n_tx = m.txs.len();
+    for (a, ta) in m.txs.iter().enumerate() {
+        for tb in m.txs.iter().skip(a + 1) {
+            if ta.ws & tb.ws != 0 && ta.attempted && tb.attempted {
+                sum.ww_pair_both_attempted = true;
+            }
+        }
+    }
+    dependency_graph_check(ops, &m)?;
+    Ok(sum)
+}
+
+/// Global check on the finished history (C04): over the *committed Serializable* transactions (as the
+/// model and — after `compare_with_model` — the implementation have them), the dependency graph built
+/// from the order-based version history (ww, wr, rw edges; a read sees the versions committed before
+/// the reader began) must be acyclic. Writers are placed at their commit position, read-only
+/// transactions at their begin position; every edge must point forward.
+fn dependency_graph_check(ops: &[ROp], m: &Model) -> Result<(), Failure> {
+    let nodes: Vec<usize> = (0..m.txs.len()).filter(|&i| m.txs[i].state == MState::Committed && m.txs[i].level == 2).collect();
+    let n = nodes.len();
+    if n < 2 {
+        return Ok(());
+    }
+    let mut adj = vec![vec![false; n]; n];
+    for (a, &ia) in nodes.iter().enumerate() {
+        for (b, &ib) in nodes.iter().enumerate() {
+            if a == b {
+                continue;
+            }
+            let (ta, tb) = (&m.txs[ia], &m.txs[ib]);
+            // ww: version order = commit order
+            if ta.ws & tb.ws != 0 && ta.commit_pos < tb.commit_pos {
+                adj[a][b] = true;
+            }
+            // tb read something ta wrote
+            let shared = ta.ws & tb.rs & !tb.ws;
+            if shared != 0 {
+                if ta.commit_pos.unwrap() < tb.begin_pos {
+                    adj[a][b] = true; // wr: tb saw ta's version
+                } else {
+                    adj[b][a] = true; // rw: tb read a version older than ta's
+                }
+            }
+        }
+    }
+    // cycle detection (Kahn)
+    let mut indeg: Vec<usize> = (0..n).map(|b| (0..n).filter(|&a| adj[a][b]).count()).collect();
+    let mut removed = vec![false; n];
+    for _ in 0..n {
+        if let Some(v) = (0..n).find(|&v| !removed[v] && indeg[v] == 0) {
+            removed[v] = true;
+            for b in 0..n {
+                if adj[v][b] {
+                    indeg[b] -= 1;
+                }
+            }
+        }
+    }
+    if removed.iter().any(|r| !r) {
+        let cyc: Vec<usize> = (0..n).filter(|&v| !removed[v]).map(|v| nodes[v]).collect();
+        return fail(
+            "c04/dependency-cycle",
+            format!("{}: committed Serializable transactions {cyc:?} form a dependency cycle", render(ops)),
+        );
+    }
+    Ok(())
+}
+
+/// Metamorphic relation: the outcome of every non-gc step is the same whatever gc calls are made.
+fn compare_runs(ops: &[ROp], base: &[Step], other: &[Step], label: &str) -> Result<(), Failure> {
+    for (i, ((op, a), b)) in ops.iter().zip(base).zip(other).enumerate() {
+        if *op == ROp::Gc {
+            continue;
+        }
+        if a.out != b.out {
+            let sig = if matches!(op, ROp::Commit(_)) { "c03/gc-changes-commit-decision" } else { "c03/gc-changes-outcome" };
+            return fail(sig, format!("{}: step {i} ({op:?}): as generated {:?}, {label} {:?}", render(ops), a.out, b.out));
+        }
+    }
+    Ok(())
+}
+
+/// The full check of one transaction-manager history.
+pub fn check_history(ops: &[ROp]) -> Result<Summary, Failure> {
+    let base = run_real(ops, GcMode::AsIs)?;
+    let sum = compare_with_model(ops, &base)?;
+    let stripped = run_real(ops, GcMode::Strip)?;
+    compare_runs(ops, &base, &stripped, "without gc")?;
+    let every = run_real(ops, GcMode::Everywhere)?;
+    compare_runs(ops, &base, &every, "with gc after every step")?;
+    // the model must hold for the other two runs as well (states, epochs)
+    compare_with_model(ops, &stripped)?;
+    compare_with_model(ops, &every)?;
+    if let Some(what) = &sum.ro_refused {
+        return Err(Failure { signature: "c04/read-only-refused".into(), what: what.clone() });
+    }
+    Ok(sum)
+}
+
+pub fn c03_class(s: &Summary) -> (bool, String) {
+    let base = if s.ww_refusals > 0 {
+        "ww-refused"
+    } else if s.sequential_same_entity {
+        "same-entity-sequential"
+    } else if s.ww_pair_both_attempted {
+        "ww-pair-no-refusal"
+    } else {
+        "no-ww-pair"
+    };
+    let class = if s.gc_between { format!("{base}+gc") } else { base.to_string() };
+    (s.ww_pair_both_attempted && s.gc_between, class)
+}
+
+// ------------------------------------------------------------------------------------------------
+// Generators
+// ------------------------------------------------------------------------------------------------
+
+fn sel() -> impl Strategy<Value = Sel> {
+    prop_oneof![9 => Just(Sel::Active), 1 => Just(Sel::Any)]
+}
+
+/// One random op. `levels` lists the admissible isolation levels, `read_weight` the weight of reads.
+pub fn op_strategy(levels: &'static [u8], n_ent: u8, read_weight: u32) -> impl Strategy<Value = Op> {
+    let lv = proptest::sample::select(levels);
+    // entities: half of the picks fall on the first two, so that transactions meet
+    let ent = move || prop_oneof![1 => 0..n_ent.min(2), 1 => 0..n_ent];
+    prop_oneof![
+        4 => lv.prop_map(|level| Op::Begin { level }),
+        6 => (any::<u16>(), sel(), ent()).prop_map(|(tx, sel, e)| Op::Write { tx, sel, e }),
+        read_weight => (any::<u16>(), sel(), ent()).prop_map(|(tx, sel, e)| Op::Read { tx, sel, e }),
+        4 => (any::<u16>(), sel()).prop_map(|(tx, sel)| Op::Commit { tx, sel }),
+        1 => (any::<u16>(), sel()).prop_map(|(tx, sel)| Op::Abort { tx, sel }),
+        3 => Just(Op::Gc),
+    ]
+}
+
+const A: Sel = Sel::Active;
+const HI: u16 = 0xffff;
+
+/// Seeded prefixes (only valid at the start of a history, where the Active list is known).
+fn shapes(levels: &'static [u8], n_ent: u8) -> impl Strategy<Value = Vec<Op>> {
+    let lv = || proptest::sample::select(levels);
+    prop_oneof![
+        // a writer that begins after an earlier writer of the same entity committed (optionally gc in between)
+        (lv(), lv(), 0..n_ent, any::<bool>()).prop_map(|(l0, l1, e, gc)| {
+            let mut v = vec![Op::Begin { level: l0 }, Op::Write { tx: 0, sel: A, e }, Op::Commit { tx: 0, sel: A }];
+            if gc {
+                v.push(Op::Gc);
+            }
+            v.extend([Op::Begin { level: l1 }, Op::Write { tx: 0, sel: A, e }, Op::Commit { tx: 0, sel: A }]);
+            v
+        }),
+        // lost update: two overlapping writers of one entity, gc between the commits
+        (lv(), lv(), 0..n_ent, any::<bool>()).prop_map(|(l0, l1, e, gc)| {
+            let mut v = vec![
+                Op::Begin { level: l0 },
+                Op::Begin { level: l1 },
+                Op::Write { tx: 0, sel: A, e },
+                Op::Write { tx: HI, sel: A, e },
+                Op::Commit { tx: 0, sel: A },
+            ];
+            if gc {
+                v.push(Op::Gc);
+            }
+            v.push(Op::Commit { tx: 0, sel: A });
+            v
+        }),
+        // long-running transaction pinned at the start (it stays the first Active one)
+        (lv(), 0..n_ent, any::<bool>()).prop_map(|(l0, e, w)| {
+            vec![Op::Begin { level: l0 }, if w { Op::Write { tx: 0, sel: A, e } } else { Op::Read { tx: 0, sel: A, e } }]
+        }),
+        // write skew
+        (lv(), lv(), 0..n_ent, 0..n_ent).prop_map(|(l0, l1, a, b)| {
+            vec![
+                Op::Begin { level: l0 },
+                Op::Begin { level: l1 },
+                Op::Read { tx: 0, sel: A, e: a },
+                Op::Read { tx: 0, sel: A, e: b },
+                Op::Read { tx: HI, sel: A, e: a },
+                Op::Read { tx: HI, sel: A, e: b },
+                Op::Write { tx: 0, sel: A, e: a },
+                Op::Write { tx: HI, sel: A, e: b },
+                Op::Commit { tx: 0, sel: A },
+                Op::Commit { tx: 0, sel: A },
+            ]
+        }),
+        // read-only transaction with a stale read
+        (lv(), lv(), 0..n_ent).prop_map(|(l0, l1, e)| {
+            vec![
+                Op::Begin { level: l0 },
+                Op::Read { tx: 0, sel: A, e },
+                Op::Begin { level: l1 },
+                Op::Write { tx: HI, sel: A, e },
+                Op::Commit { tx: HI, sel: A },
+                Op::Commit { tx: 0, sel: A },
+            ]
+        }),
+    ]
+}
+
+/// Histories: 40 % start with a seeded shape; the long-runner's commit is appended in half of those.
+pub fn history_strategy(levels: &'static [u8], n_ent: u8, read_weight: u32, max_len: usize) -> impl Strategy<Value = Vec<Op>> {
+    let tail = move || proptest::collection::vec(op_strategy(levels, n_ent, read_weight), 0..max_len);
+    prop_oneof![
+        6 => tail(),
+        4 => (shapes(levels, n_ent), tail(), any::<bool>()).prop_map(|(mut s, t, close)| {
+            s.extend(t);
+            if close {
+                s.push(Op::Commit { tx: 0, sel: A });
+            }
+            s
+        }),
+    ]
+}
+
+/// C03 histories carry no reads (read validation is C04's subject): every read becomes a write.
+pub fn reads_to_writes(ops: Vec<Op>) -> Vec<Op> {
+    ops.into_iter()
+        .map(|op| match op {
+            Op::Read { tx, sel, e } => Op::Write { tx, sel, e },
+            o => o,
+        })
+        .collect()
+}
+
+pub static LEVELS_ALL: [u8; 3] = [0, 1, 2];
+pub static LEVELS_C03: [u8; 4] = [1, 1, 2, 0];
+
+// ------------------------------------------------------------------------------------------------
+// Exhaustive small scope
+// ------------------------------------------------------------------------------------------------
+
+/// An enumerated history, 7 bits per step: kind (3) | tx (2) | arg (2); steps 0..9 in `lo`, 9..18 in `hi`.
+#[derive(Debug, Clone, Copy, PartialEq, Eq, Hash, Serialize, Deserialize)]
+pub struct EnumCase {
+    pub lo: u64,
+    #[serde(default)]
+    pub hi: u64,
+}
+
+fn enc(op: ROp) -> u64 {
+    let (k, t, a) = match op {
+        ROp::Begin(l) => (1u64, 0u64, u64::from(l)),
+        ROp::Write(t, e) => (2, u64::from(t), u64::from(e)),
+        ROp::Read(t, e) => (3, u64::from(t), u64::from(e)),
+        ROp::Commit(t) => (4, u64::from(t), 0),
+        ROp::Abort(t) => (5, u64::from(t), 0),
+        ROp::Gc => (6, 0, 0),
+    };
+    k | (t << 3) | (a << 5)
+}
+
+pub fn decode(case: &EnumCase) -> Vec<ROp> {
+    let mut out = decode_word(case.lo);
+    if out.len() == 9 {
+        out.extend(decode_word(case.hi));
+    }
+    out
+}
+
+fn decode_word(code: u64) -> Vec<ROp> {
+    let mut out = Vec::new();
+    let mut c = code;
+    while c & 7 != 0 {
+        let (k, t, a) = (c & 7, ((c >> 3) & 3) as u8, ((c >> 5) & 3) as u8);
+        out.push(match k {
+            1 => ROp::Begin(a),
+            2 => ROp::Write(t, a),
+            3 => ROp::Read(t, a),
+            4 => ROp::Commit(t),
+            5 => ROp::Abort(t),
+            _ => ROp::Gc,
+        });
+        c >>= 7;
+    }
+    out
+}
+
+pub struct EnumCfg {
+    pub max_tx: usize,
+    pub n_ent: u8,
+    pub steps: usize,
+    pub levels: &'static [u8],
+    pub reads: bool,
+}
+
+/// All well-formed histories of exactly `steps` steps (every shorter history is a prefix of one of
+/// them and is checked step by step as part of it). Reductions, all symmetry / idempotence: transactions
+/// are numbered in begin order; entity k+1 is not used before entity k; ops only target Active
+/// transactions; an entity already in the set is not recorded again; no two consecutive gc.
+pub fn enumerate_histories(cfg: &EnumCfg) -> Vec<EnumCase> {
+    fn rec(cfg: &EnumCfg, m: &Model, code: EnumCase, depth: usize, used: u8, last_gc: bool, out: &mut Vec<EnumCase>) {
+        if depth == cfg.steps {
+            out.push(code);
+            return;
+        }
+        let mut moves: Vec<ROp> = Vec::new();
+        if m.txs.len() < cfg.max_tx {
+            for l in cfg.levels {
+                moves.push(ROp::Begin(*l));
+            }
+        }
+        for t in m.active() {
+            let tx = &m.txs[t as usize];
+            for e in 0..cfg.n_ent.min(used + 1) {
+                if tx.ws & (1 << e) == 0 {
+                    moves.push(ROp::Write(t, e));
+                }
+                if cfg.reads && tx.rs & (1 << e) == 0 {
+                    moves.push(ROp::Read(t, e));
+                }
+            }
+            moves.push(ROp::Commit(t));
+            moves.push(ROp::Abort(t));
+        }
+        if !last_gc && depth > 0 {
+            moves.push(ROp::Gc);
+        }
+        for mv in moves {
+            let mut m2 = m.clone();
+            m2.step(mv);
+            let used2 = match mv {
+                ROp::Write(_, e) | ROp::Read(_, e) => used.max(e + 1),
+                _ => used,
+            };
+            let code2 = if depth < 9 {
+                EnumCase { lo: code.lo | (enc(mv) << (7 * depth)), hi: 0 }
+            } else {
+                EnumCase { lo: code.lo, hi: code.hi | (enc(mv) << (7 * (depth - 9))) }
+            };
+            rec(cfg, &m2, code2, depth + 1, used2, mv == ROp::Gc, out);
+        }
+    }
+    assert!(cfg.steps <= 18 && cfg.max_tx <= 4 && cfg.n_ent <= 4);
+    let mut out = Vec::new();
+    rec(cfg, &Model::default(), EnumCase { lo: 0, hi: 0 }, 0, 0, false, &mut out);
+    out
+}
+
+// ------------------------------------------------------------------------------------------------
+// Threaded variant
+// ------------------------------------------------------------------------------------------------
+
+/// Two rounds of transactions committed concurrently from real threads. Every transaction of a round
+/// begins (and records its writes) before a barrier; all commits of the round happen after it, so
+/// within a round every pair overlaps, and no round-2 transaction overlaps a round-1 transaction.
+#[derive(Debug, Clone, PartialEq, Eq, Hash, Serialize, Deserialize)]
+pub struct ThreadedCase {
+    /// per thread: write set of its round-1 transaction, write set of its round-2 transaction (entities 0..8)
+    pub threads: Vec<(Vec<u8>, Vec<u8>)>,
+    /// extra threads that call gc() in a loop while the commits run
+    pub gc_threads: u8,
+    /// refused round-1 transactions are aborted (true) or left Active (false) before round 2
+    pub abort_refused: bool,
+}
+
+pub fn threaded_strategy(max_threads: usize) -> impl Strategy<Value = ThreadedCase> {
+    let ws = || {
+        prop_oneof![
+            3 => proptest::collection::vec(0u8..3, 1..3),
+            2 => proptest::collection::vec(0u8..8, 1..4),
+            1 => Just(vec![0u8]),
+            1 => Just(Vec::new()),
+        ]
+    };
+    (proptest::collection::vec((ws(), ws()), 2..=max_threads), 0u8..3, any::<bool>())
+        .prop_map(|(threads, gc_threads, abort_refused)| ThreadedCase { threads, gc_threads, abort_refused })
+}
+
+fn mask(ws: &[u8]) -> u16 {
+    ws.iter().fold(0u16, |m, e| m | (1 << (e % 8)))
+}
+
+pub fn check_threaded(case: &ThreadedCase) -> CaseResult {
+    let n = case.threads.len();
+    type Res = Result<u64, EK>;
+    let results: Vec<(Res, Res)> = guard("threaded commits", || {
+        let mgr = Arc::new(TransactionManager::new());
+        let barrier = Arc::new(Barrier::new(n));
+        let stop = Arc::new(std::sync::atomic::AtomicBool::new(false));
+        std::thread::scope(|scope| {
+            let gcs: Vec<_> = (0..case.gc_threads)
+                .map(|_| {
+                    let (mgr, stop) = (Arc::clone(&mgr), Arc::clone(&stop));
+                    scope.spawn(move || {
+                        while !stop.load(std::sync::atomic::Ordering::SeqCst) {
+                            mgr.gc();
+                            std::thread::yield_now();
+                        }
+                    })
+                })
+                .collect();
+            let handles: Vec<_> = case
+                .threads
+                .iter()
+                .map(|(w1, w2)| {
+                    let (mgr, barrier) = (Arc::clone(&mgr), Arc::clone(&barrier));
+                    let abort_refused = case.abort_refused;
+                    scope.spawn(move || {
+                        let mut res: Vec<Res> = Vec::new();
+                        for ws in [w1, w2] {
+                            let tx = mgr.begin();
+                            for e in ws {
+                                mgr.record_write(tx, entity(*e % 8)).expect("record_write on an active transaction");
+                            }
+                            barrier.wait();
+                            let r = mgr.commit(tx).map(|e| e.as_u64()).map_err(|e| kind(&e));
+                            if r.is_err() && abort_refused {
+                                mgr.abort(tx).expect("abort of a refused (still active) transaction");
+                            }
+                            res.push(r);
+                            barrier.wait();
+                        }
+                        (res[0], res[1])
+                    })
+                })
+                .collect();
+            let out: Vec<(Res, Res)> = handles.into_iter().map(|h| h.join().expect("worker thread panicked")).collect();
+            stop.store(true, std::sync::atomic::Ordering::SeqCst);
+            for g in gcs {
+                g.join().expect("gc thread panicked");
+            }
+            out
+        })
+    })?;
+
+    let mut base_epoch = 0u64;
+    let mut conflicts = false;
+    for round in 0..2 {
+        let rs: Vec<(u16, Res)> = case
+            .threads
+            .iter()
+            .zip(&results)
+            .map(|((w1, w2), (r1, r2))| if round == 0 { (mask(w1), *r1) } else { (mask(w2), *r2) })
+            .collect();
+        let committed: Vec<(usize, u16, u64)> = rs.iter().enumerate().filter_map(|(i, (m, r))| r.ok().map(|e| (i, *m, e))).collect();
+        for (a, (ia, ma, _)) in committed.iter().enumerate() {
+            for (ib, mb, _) in committed.iter().skip(a + 1) {
+                if ma & mb != 0 {
+                    return fail(
+                        "c03/threaded/conflicting-writers-both-committed",
+                        format!("{case:?}: round {round}: threads {ia} and {ib} wrote a common entity and both committed: {results:?}"),
+                    );
+                }
+            }
+        }
+        for (i, (m, r)) in rs.iter().enumerate() {
+            match r {
+                Ok(_) => {}
+                Err(EK::WriteConflict) => {
+                    conflicts = true;
+                    if !committed.iter().any(|(_, mc, _)| mc & m != 0) {
+                        return fail(
+                            "c03/threaded/refused-without-committed-conflicting-writer",
+                            format!("{case:?}: round {round}: thread {i} refused but no committed transaction of the round shares an entity: {results:?}"),
+                        );
+                    }
+                }
+                Err(k) => {
+                    return fail("c03/threaded/unexpected-error", format!("{case:?}: round {round}: thread {i}: {k:?}"));
+                }
+            }
+        }
+        let mut eps: Vec<u64> = committed.iter().map(|c| c.2).collect();
+        eps.sort_unstable();
+        let want: Vec<u64> = (base_epoch + 1..=base_epoch + eps.len() as u64).collect();
+        if eps != want {
+            return fail(
+                "c03/threaded/epochs",
+                format!("{case:?}: round {round}: commit epochs {eps:?}, expected the distinct values {want:?}: {results:?}"),
+            );
+        }
+        base_epoch += eps.len() as u64;
+    }
+    let overlap1 = (0..n).any(|a| (a + 1..n).any(|b| mask(&case.threads[a].0) & mask(&case.threads[b].0) != 0));
+    let cross = (0..n).any(|a| (0..n).any(|b| mask(&case.threads[a].0) & mask(&case.threads[b].1) != 0));
+    let class = match (conflicts, cross) {
+        (true, true) => "conflict+cross-round",
+        (true, false) => "conflict",
+        (false, true) => "disjoint+cross-round",
+        (false, false) => "disjoint",
+    };
+    ok(overlap1 && cross, class, hash_of(case))
+}
+
+// ------------------------------------------------------------------------------------------------
+// Session layer
+// ------------------------------------------------------------------------------------------------
+
+pub mod sessions;
+
+// ------------------------------------------------------------------------------------------------
+// run
+// ------------------------------------------------------------------------------------------------
 
 pub fn run(r: &mut Run) {
-    r.inconclusive("C03: check not built yet");
+    r.level = "exploration";
+    r.rule = "tm_histories: random TransactionManager histories (<=6 transactions, <=4 entities, <=25/60 steps; 40% start with a seeded \
+              shape: sequential same-entity writers, lost update, long-runner, write skew, stale read-only); each run three times \
+              (as generated / gc stripped / gc after every step) and against an order-based model. Non-trivial = two transactions \
+              with intersecting write sets both reach commit AND a gc lies between a successful commit and a later begin or commit; \
+              distinct by hash of the resolved history. tm_exhaustive: every well-formed history of exactly N steps over <=3 \
+              transactions, <=2 entities (all shorter ones are prefixes), non-trivial by the same rule. threaded: 2-8 threads x 2 \
+              rounds behind barriers, non-trivial = overlapping write sets within round 1 and across rounds. sessions: 2-3 sessions \
+              updating 1-2 nodes through GQL, non-trivial = two sessions whose transactions overlap both SET the same node and \
+              both reach commit."
+        .into();
+    r.assumptions.push("a refused commit leaves the transaction Active (implementation behaviour; the property does not fix the terminal state)".into());
+    r.assumptions.push("overlap is decided by history order (commit position after begin position), epochs are checked to agree with it".into());
+
+    let max_len = if r.is_thorough() { 60 } else { 25 };
+    r.subcheck(
+        "tm_histories",
+        r.cases(100_000, 2_000_000),
+        move || history_strategy(&LEVELS_C03, N_ENT, 1, max_len).prop_map(reads_to_writes),
+        |ops: &Vec<Op>| {
+            let rops = resolve(ops, MAX_TX);
+            let sum = check_history(&rops)?;
+            let (nt, class) = c03_class(&sum);
+            ok(nt, class, hash_of(&rops))
+        },
+    );
+
+    let steps = std::env::var("VERIF_ENUM_STEPS").ok().and_then(|s| s.parse().ok()).unwrap_or(if r.is_thorough() { 11 } else { 9 });
+    let cfg = EnumCfg { max_tx: 3, n_ent: 2, steps, levels: &[1], reads: false };
+    let items = enumerate_histories(&cfg);
+    r.note(format!("tm_exhaustive: {} histories of exactly {} steps", items.len(), cfg.steps));
+    r.enumerate("tm_exhaustive", items, true, |c: &EnumCase| {
+        let rops = decode(c);
+        let sum = check_history(&rops)?;
+        let (nt, class) = c03_class(&sum);
+        ok(nt, class, hash_of(c))
+    });
+
+    let max_threads = if r.is_thorough() { 8 } else { 6 };
+    r.subcheck("threaded", r.cases(1_500, 60_000), move || threaded_strategy(max_threads), check_threaded);
+
+    sessions::run_c03(r);
 }
